@@ -269,6 +269,45 @@ class Resolver:
                             out.append(s.aliases[name].target)
         return out
 
+    def ctor_callables(self, classes, attr):
+        """callees for ``obj.<attr>(...)`` where ``self.<attr> = <ctor param>``:
+        whatever is passed for that parameter at the constructor's call sites"""
+        key = ("ctorcall", tuple(sorted(c.key for c in classes)), attr)
+        if key in self._cache:
+            return self._cache[key]
+        out = []
+        self._cache[key] = out
+        for c in classes:
+            for fn, val in self.attr_assignments(c).get(attr, ()):
+                if fn.name != "__init__" or not isinstance(val, ast.Name) or \
+                        val.id not in fn.params:
+                    continue
+                pos = [p_ for p_ in fn.positional if p_ != "self"]
+                idx = pos.index(val.id) if val.id in pos else None
+                for m in self.p.modules.values():
+                    for call in ast.walk(m.tree):
+                        if not isinstance(call, ast.Call):
+                            continue
+                        tgt = self.p.resolve_expr_static(m, call.func) if isinstance(
+                            call.func, (ast.Name, ast.Attribute)) else None
+                        if not (isinstance(tgt, ClassInfo) and
+                                (tgt is fn.cls or tgt.is_subclass_of(fn.cls))):
+                            continue
+                        arg = None
+                        if idx is not None and idx < len(call.args):
+                            arg = call.args[idx]
+                        for k in call.keywords:
+                            if k.arg == val.id:
+                                arg = k.value
+                        if arg is None:
+                            continue
+                        owner = self.p.enclosing_func(m, call)
+                        if owner is None:
+                            owner = Func(ast.parse("def _m(): pass").body[0], m)
+                        r2 = self.resolve_callable_expr(owner, arg, 1)
+                        out += [x for x in r2.callees if x not in out]
+        return out
+
     def alias_bound(self, classes, name):
         for c in classes:
             al = c.lookup_alias(name)
@@ -286,13 +325,18 @@ class Resolver:
             return Resolution(external=True, via="lambda")
         if isinstance(fn, ast.Name):
             name = fn.id
-            # nested function defined in this (or an enclosing) function
+            # nested function defined in this (or an enclosing) function; the same
+            # name may also be bound by assignments (alternative implementations)
             f = func
             while f is not None:
-                for nf in p.nested_funcs(f):
-                    if nf.name == name:
-                        sib = [x for x in p.nested_funcs(f) if x.name == name]
-                        return Resolution(sib, via="nested def")
+                sib = [x for x in p.nested_funcs(f) if x.name == name]
+                if sib:
+                    callees, bound = list(sib), {}
+                    for v in self.local_assignments(f).get(name, []):
+                        r2 = self._resolve_value_as_callable(f, v, _depth + 1)
+                        callees += [c for c in r2.callees if c not in callees]
+                        bound.update(r2.bound)
+                    return Resolution(callees, bound, via="nested def")
                 f = f.parent_func
             # local assignment: alias of something resolvable
             f = func
@@ -376,6 +420,10 @@ class Resolver:
                 ms = self.methods_for(types, attr)
                 if ms:
                     return Resolution(ms, self.alias_bound(types, attr), via="typed receiver")
+                # attribute holding a callable handed to the constructor
+                cs = self.ctor_callables(types, attr)
+                if cs:
+                    return Resolution(cs, via="callable attribute set by the constructor")
                 return Resolution(external=True, via="typed receiver, no such method")
             if attr in BUILTIN_METHODS:
                 return Resolution(external=True, via="builtin-method name")
